@@ -276,6 +276,34 @@ func verifyCrashed(dir string, ops []Op, acked int) string {
 			seenIDs[e.InternalID] = pid
 		}
 		c07Oracle(chosen)
+		// a dataset created after the restart gets an internal id no other dataset has or had, and is empty
+		taken := map[uint32]string{}
+		for _, n := range h.DatasetNames() {
+			if d := h.Dsm.GetDataset(n); d != nil {
+				taken[d.InternalID] = n
+			}
+		}
+		nd, err := h.Dsm.CreateDataset("zz-probe-after-restart", nil)
+		if err != nil || nd == nil {
+			chosen.fail("CREATE-AFTER-RESTART failed: %v", err)
+		}
+		if prev, dup := taken[nd.InternalID]; dup {
+			chosen.fail("DATASET-ID-REUSED a dataset created after the restart got internal id %d, which %s has", nd.InternalID, prev)
+		}
+		if es, _, err := h.Feed("zz-probe-after-restart", 0, nil, false); err != nil || len(es) != 0 {
+			chosen.fail("NEW-DATASET-NOT-EMPTY a dataset created after the restart has %d changes (%v)", len(es), err)
+		}
+		// (the id of a deleted dataset would hide whatever is written to the new one)
+		npid := h.P[0] + ":probe-in-new-dataset"
+		if err := h.StoreBatch("zz-probe-after-restart", []*kit.Ent{{ID: npid, Props: map[string]any{h.P[0] + ":p0": "probe"}, Refs: map[string]any{}}}, "store"); err != nil {
+			chosen.fail("write to the dataset created after the restart: %v", err)
+		}
+		if e, err := h.Lookup(npid, nil); err != nil || e == nil || e.Properties[h.P[0]+":p0"] != "probe" {
+			chosen.fail("NEW-DATASET-HIDDEN an entity written to the dataset created after the restart is not returned by an unscoped lookup (%v, %v)", e, err)
+		}
+		if es, _, err := h.Feed("zz-probe-after-restart", 0, nil, false); err != nil || len(es) != 1 {
+			chosen.fail("NEW-DATASET-FEED the dataset created after the restart has %d changes after one write (%v)", len(es), err)
+		}
 	})
 	chosen.h = nil
 	if msg != "" {
